@@ -48,7 +48,7 @@ ASSUMPTIONS = [
     "requests are encoded by the library; filters the library cannot express under KMIP 2.0 "
     "(Operation Policy Name, Certificate Type) are excluded and counted",
 ]
-SHRINK_BUDGET = 250
+SHRINK_BUDGET = 120
 NSHARDS = 16
 BASE_TIME = 1_700_000_000
 
@@ -842,6 +842,12 @@ def _name_deviation(cli, pols, model, who, groups, filters, got, req, full):
             continue
         gs = set(_uids(rs))
         sm, sy = model_sets(pols, model, who, groups, fl)
+        flag = {"Sensitive": "sens", "Name": "nametype"}.get(attr)
+        if flag and not _fits(gs, sm, sy):
+            km, ky = model_sets(pols, model, who, groups, fl, (flag,))
+            if _fits(gs, km, ky):
+                out.append((KNOWN_FLAGS[flag], detail))
+                continue
         if sm - gs:
             out.append(("C14|filter|%s|matching-object-missing" % attr, detail))
         if gs - sm - sy:
@@ -917,7 +923,7 @@ def run(ctx):
     F.rsa_pair(1024)
     F.rsa_pair(2048)            # generated once in the parent, inherited by the forked shards
     F.obj_spec("Certificate")
-    stores = ctx.n(1600, 48000)
+    stores = ctx.n(1600, 32000)
     per = stores // NSHARDS
     dicts = core.run_sharded("vlib.props.c14", "worker",
                              [(per, core.derive_seed(ctx.seed, "c14", i)) for i in range(NSHARDS)])
